@@ -186,6 +186,29 @@ theorem poll_partial_progress_kept (s : St) (rest : List Bool) (hp : s.pending =
   | nil => simp [step, hc, hn, deliver, hp, hf, apiHoldsCache, ha]
   | cons d r => simp [step, hc, hn, deliver, hp, hf, apiHoldsCache, ha]
 
+/-! ### the poll that ends an outage (seventh-round seed: a poll that finds the tip it already knows) -/
+
+/-- **a_successful_poll_ends_the_outage**: a poll made with the node up by an idle chain thread raises the flag
+(the public API answers 200 again) whatever it finds to deliver — nothing at all (the tip it already recorded, or a
+worse one), blocks without a dispute, or a download that fails half-way — and whatever the flag was before. (Blocks
+that carry a dispute need RPCs, whose outcome `no_submission_dropped` and `outage_noticed_means_flag_down` cover; an
+API thread inside its critical section is the known finding `request_path_blocks_chain`.) -/
+theorem a_successful_poll_ends_the_outage (s : St) (hc : s.chain = .idle) (hn : s.nodeUp = true)
+    (hq : ∀ d ∈ s.pending, d = false) (ha : apiHoldsCache s = false) (hl : s.pending.length < 16) :
+    (step s .poll).flag = true ∧ apiStatus (step s .poll) = 200 := by
+  have h : (step s .poll).flag = true := by
+    simp only [step, hc, hn]
+    exact deliver_quiet_raises_flag 16 s 0 hq ha hl
+  exact ⟨h, by simp [apiStatus, h]⟩
+
+/-- non-vacuity, and the history of the seventh-round seed: a download fails in the middle of a three-block poll,
+the node then goes away and a poll notices (flag down, 503); the node comes back with nothing new mined, and the poll
+that delivers the two remaining blocks — finding the tip already recorded — ends the outage. -/
+example :
+    let s := [Act.mine false, .mine false, .mine false, .failBlock 1, .poll, .nodeDown, .poll, .nodeUp].foldl step ({} : St)
+    s.flag = false ∧ s.chain = .idle ∧ s.nodeUp = true ∧ (∀ d ∈ s.pending, d = false) ∧ apiHoldsCache s = false ∧
+    s.pending.length = 2 ∧ (step s .poll).flag = true ∧ (step s .poll).pending = [] := by decide
+
 
 /-! ### every reachable state of the protocol model: a noticed outage is a flagged outage (`Lemmas/OutageInv`) -/
 
